@@ -192,6 +192,12 @@ def call_events(an: Analysis, fn: FunctionInfo, node: Node) -> Iterable[Event]:
                 yield ("URANDOM", None, t.name)
             elif t.name in ("?.write",):
                 yield ("FILE_WRITE", None, t.name)
+            elif t.name in ("?.write_bytes", "?.write_text"):
+                yield ("OPEN", None, "wb" if t.name.endswith("bytes") else "w")
+                yield ("FILE_WRITE", None, t.name)
+            elif t.name in ("?.read_bytes", "?.read_text"):
+                yield ("OPEN", None, "rb" if t.name.endswith("bytes") else "r")
+                yield ("FILE_READ", None, t.name)
             elif t.name.startswith("sys.stdout") or t.name.startswith("sys.stderr"):
                 yield ("PRINT", None, t.name)
         elif t.kind == "builtin_method":
@@ -205,7 +211,16 @@ def call_events(an: Analysis, fn: FunctionInfo, node: Node) -> Iterable[Event]:
             yield ("ENV_READ", None, "os.environ[]")
 
 
+def open_path_expr(call: ast.Call):
+    """the expression naming the file for open(...) / Path(...).write_bytes(...)"""
+    if isinstance(call.func, ast.Attribute) and call.func.attr in ("write_bytes", "write_text", "read_bytes", "read_text"):
+        return call.func.value
+    return call.args[0] if call.args else None
+
+
 def open_mode(call: ast.Call) -> str:
+    if isinstance(call.func, ast.Attribute) and call.func.attr in ("write_bytes", "write_text", "read_bytes", "read_text"):
+        return {"write_bytes": "wb", "write_text": "w", "read_bytes": "rb", "read_text": "r"}[call.func.attr]
     mode = None
     if len(call.args) >= 2:
         mode = call.args[1]
